@@ -4,6 +4,12 @@ NOTES = ("All checks: bin/check <ID> --tier quick|thorough. Exit 0 held / 1 VIOL
          "Specification in spec/, harness in harness/, known findings in known_findings.jsonl; see DESIGN.md.")
 NOT_APPLICABLE = {}
 CHECKS = {
+    "C05": {
+        "level": "model_checking",
+        "technique": "TLA+ CssTokens spec (pushdown acceptor for balanced blocks/brackets, Sass-only token classes, charset/BOM rule, whitelist predicate for CSS-representable values) judging, in TLC (Trace_Css), one event per successful compilation: output tokens, charset facts and the results of compiling the output again as CSS and as SCSS; inputs from TLC generators (MC_Sheet string/escape atoms and non-ASCII placements, MC_Eval programs, MC_Nesting trees) and the golden corpus x {expanded, compressed} x {charset on, off}",
+        "text": "Every admitted output must be accepted by the token acceptor, contain no Sass-only token, carry @charset (expanded) or a BOM (compressed) exactly when it has non-ASCII text and charset output is allowed, and be a fixed point: re-compiled as plain CSS and as SCSS it yields the same (context, selector, declarations, values) list. Strings are enumerated from escape/quote/control-character atoms; the non-ASCII character is placed in each of 9 syntactic positions.",
+        "note": "The fixed-point and well-formedness clauses are demanded only of sheets whose values pass CssTokens.RepresentableValue (the property's antecedent), evaluated on the output; UTF-8 validity is taken from the worker; the checker's tokenizer and block reader are trusted.",
+    },
     "C04": {
         "level": "model_checking",
         "technique": "TLA+ Flatten spec (parent-selector resolution incl. flattenVertically order and `&` through @at-root, bubbling of @media/@supports/unknown at-rules with media merging, every @at-root query, nested properties) as denotational reference; TLC checks it keeps every declaration exactly once and enumerates rule trees (MC_Nesting: exhaustive menus plus deep 'spine' chains); grass output read back independently and compared per (context path, selector)",
